@@ -22,9 +22,12 @@ def conc_case(draw, brokers):
     for i in range(n):
         a = draw(st.sampled_from(actors))
         dur = draw(st.one_of(GRID, st.just(0.0), st.sampled_from([0.25, 0.5, 1.0])))
-        fails = draw(st.integers(0, 4)) == 0
+        r = draw(st.integers(0, 9))
+        # an actor that ends cancelled leaves its message without a disposition; on RabbitMQ that unacked message keeps
+        # occupying the server-side prefetch window, which is not the slot accounting this property is about
+        kind = "raise" if r < 2 else ("cancel" if r == 2 and broker != "amqp" else "ret")
         j = {"id": f"j{i}", "actor": a["name"], "queue": a["queue"], "retries": 0, "store_result": False,
-             "attempts": [{"k": "raise" if fails else "ret", "exc": "ValueError", "text": "f", "v": i, "sleep": dur}]}
+             "attempts": [{"k": kind, "exc": "ValueError", "text": "f", "v": i, "sleep": dur}]}
         mode = draw(st.sampled_from(["before", "before", "burst", "after"])) if i > 0 else "before"
         if mode == "burst":
             j["enqueue_at"] = draw(st.one_of(GRID, st.integers(0, 6000).map(lambda ms: ms / 1000)))
@@ -44,8 +47,10 @@ def conc_case(draw, brokers):
 
 def _settled(tr: scenario.Trace) -> bool:
     n = len(tr.case["jobs"])
+    # (a message whose actor ended cancelled is left without a disposition: its fate is not this property's business)
+    lost = {j["id"] for j in tr.case["jobs"] if j["attempts"][0]["k"] == "cancel"}
     return len(tr.execs) >= n and all(e.end != "running" for e in tr.execs) and not any(
-        p.kind in ("waiting", "held") for v in tr.env.probe().values() for p in v)
+        p.kind in ("waiting", "held") for i, v in tr.env.probe().items() if i not in lost for p in v)
 
 
 def run(case: dict) -> Outcome:
